@@ -57,6 +57,11 @@ def cases(tier, seed):
             cc["frag"] = rnd.choice([1, 2, 3, 5])
             cc["fragn"] = rnd.random() < 0.5
         out.append(d)
+    # the contact phase right after a remeshing step (real edge splits, cached normals of untouched faces not refreshed)
+    for c in [x for x in out[1:: 5 if tier == "quick" else 2] if not any(cc["shape"] == "sphere" for cc in x["cells"])]:
+        d = json.loads(json.dumps(c))
+        d["splits"] = rnd.choice([2, 4, 7])
+        out.append(d)
     # persistent identifiers that differ from list positions (what divisions and removals leave): rotated (the identifier of one
     # cell is the position of another) or unrelated
     for j, c in enumerate(out):
